@@ -5,6 +5,7 @@ import (
 	"fmt"
 	"os"
 	"path/filepath"
+	"strings"
 
 	"github.com/NethermindEth/juno/core/felt"
 	"github.com/NethermindEth/juno/db/memory"
@@ -113,10 +114,16 @@ func replay(c *hx.Ctx, or *hx.Oracle, r *hx.RNG) {
 			probe.Impl, probe.Root, probe.Tampered.Key, probe.Tampered.Kind, g, probe.Actual)
 		if !notForged(g, probe.Actual) {
 			kind := probe.Tampered.Kind
+			valueTag := probe.Impl == "trie2" &&
+				!strings.HasPrefix(verifyModel(or, "v2s", root, keyBits(&key, 251), probe.Tampered.Set, hf), "ok ") &&
+				verifyModel(or, "v2", root, keyBits(&key, 251), probe.Tampered.Set, hf) == g
 			for _, suf := range []string{":stale-key", ":rekeyed"} {
 				if len(kind) > len(suf) && kind[len(kind)-len(suf):] == suf {
 					kind = kind[:len(kind)-len(suf)]
 				}
+			}
+			if valueTag {
+				kind = "retag-child" // a ValueNode-tagged child above leaf depth, whatever the alteration was called
 			}
 			c.Violation(probe.Impl+":forged:"+kind, "replayed: "+g, probe, false)
 		}
